@@ -55,6 +55,9 @@ LookupBlock(envs, e, name) ==   \* same, but only within the innermost block
   ELSE IF envs[e].name = name THEN envs[e].cell
   ELSE LookupBlock(envs, envs[e].p, name)
 
+RECURSIVE AtRoot(_, _)
+AtRoot(envs, e) == IF e = 0 THEN TRUE ELSE IF envs[e].name = "" THEN FALSE ELSE AtRoot(envs, envs[e].p)
+
 Mark(mm) == [mm EXCEPT !.envs = Append(@, [p |-> mm.env, name |-> "", cell |-> 0]),
                        !.env = Len(mm.envs) + 1]
 
@@ -318,7 +321,7 @@ StepEv(P, mm, n) ==   \* mm.ctl already popped
     [] nd.t = "err" -> Sched(mm, <<Ev(nd.e), [k |-> "mkerr"]>>)
     [] nd.t = "imm" -> Sched(mm, <<Ev(nd.e), [k |-> "mkimm"]>>)
     [] nd.t = "imp" ->
-         IF nd.root = 0 THEN Excl(mm, "builtin-module")
+         IF nd.root = 0 THEN (IF nd.std THEN Excl(mm, "builtin-module") ELSE CompErr(mm, "module_not_found", n))
          ELSE \* a source module: its body runs afresh, in an environment with builtins only
               [mm EXCEPT !.env = 0, !.fd = mm.fd + 1, !.calls = <<mm.cur>> \o mm.calls, !.modtop = TRUE,
                          !.ctl = <<Ex(nd.root), [k |-> "fallret"],
@@ -345,6 +348,8 @@ StepEx(P, mm0, n) ==
   CASE nd.t = "expr" -> Sched(mm, <<Ev(nd.e), [k |-> "pop"]>>)
     [] nd.t = "def" ->
          IF LookupBlock(mm.envs, mm.env, nd.name) # 0 THEN CompErr(mm, "redeclared", n)
+         \* at the root of the main program the builtin functions live in the same block
+         ELSE IF nd.name \in BuiltinNames /\ mm.fd = 0 /\ AtRoot(mm.envs, mm.env) THEN CompErr(mm, "redeclared", n)
          ELSE IF nd.isfn
            THEN LET m2 == BindDecl(mm, <<n, 0>>, nd.name, VUndef) IN
                 Sched(m2, <<Ev(nd.e), [k |-> "assigncell", c |-> m2.envs[m2.env].cell]>>)
